@@ -19,6 +19,7 @@ const (
 // Pre-configured modes for CBOR encoding and decoding.
 var (
 	encMode                  cbor.EncMode
+	encModeWithoutTags       cbor.EncMode
 	decMode                  cbor.DecMode
 	decModeWithTagsForbidden cbor.DecMode
 )
@@ -33,6 +34,14 @@ func init() {
 		BigIntConvert: cbor.BigIntConvertNone,     // keep bignums as bignums: the decoder refuses integers beyond int64
 	}
 	encMode, err = encOpts.EncMode()
+	if err != nil {
+		panic(err)
+	}
+	// The unprotected bucket is decoded with tags forbidden, so it must be
+	// encoded without them: an integer beyond int64 that the decoder delivered
+	// as a big.Int is written back as the CBOR integer it was.
+	encOpts.BigIntConvert = cbor.BigIntConvertShortest
+	encModeWithoutTags, err = encOpts.EncMode()
 	if err != nil {
 		panic(err)
 	}
